@@ -51,23 +51,25 @@ func p(id string, rules []string, decided []string, notDecided, technique string
 
 func init() {
 	p("C01",
-		[]string{"T-ROUND", "T-SETEXP", "T-ARITH@Add(|Sub(|Mul(|Quo(", "T-UNARY@Set(|SetPrec(|Neg(|Abs(", "SIGN", "EXP", "WORD", "CARRY", "MUSTFLOW", "NORM", "PREC0@Add|Sub|Mul|Quo|Set|Neg|Abs|SetPrec"},
+		[]string{"T-ROUND", "T-SETEXP", "T-ARITH@Add(|Sub(|Mul(|Quo(", "T-UNARY@Set(|SetPrec(|Neg(|Abs(", "SIGN", "EXP", "WORD", "CARRY", "MUSTFLOW", "NORM", "PREC0@Add|Sub|Mul|Quo|Set|Neg|Abs|SetPrec", "LOWCUT", "SHIFTDIR"},
 		[]string{
 			"T-ROUND: the rounding decision of round() equals the IEEE 754 direction table for all 6 modes x 2 signs x 10 rounding digits x sticky (argument or mantissa) x parity, with the all-nines carry stepping the exponent or overflowing to Inf.",
 			"T-SETEXP: exponent underflow -> zero and overflow -> Inf of the result's sign before rounding; the caller's sticky bit is handed to round.",
 			"T-ARITH: for every operand class pair and mode the sign is final and the operands are in the right order before the unsigned operation, the receiver's own precision is in force, a zero operand yields the other operand rounded under ITS final sign.",
 			"T-UNARY: Set/SetPrec/Neg/Abs round exactly when the precision shrinks, with the documented sign.",
 			"SIGN: no store to the sign after a call that may round the same object (except Neg/Abs, documented, which nothing in the package builds on, and the exact-zero fix-up); EXP: no wide integer becomes the int32 exponent outside a [MinExp, MaxExp] test, exp+1 is guarded, the int64 exponent sum cannot wrap; WORD: only kernel results and reduced values enter a mantissa (in particular in the division add-back that feeds the sticky bit); CARRY: the all-nines carry of round and the top carry of dec.add are consumed; MUSTFLOW: the dnorm shift reaches the exponent and the division remainder reaches the sticky bit; NORM: every computed mantissa is normalised, then rounded, before a success exit.",
+			"LOWCUT: no low-order words of a mantissa are sliced away before rounding unless sticky(words*_DW) of exactly those words reaches the rounding (a shortened dividend or truncated operand loses digits the rounding must see); SHIFTDIR: in uadd/usub the alignment shift count is a difference proven positive by the enclosing comparison, and the operand shifted left is the one with the larger exponent.",
 		},
 		"that alignment shifts, digit positions, products and quotients are the right numbers (numeric core, not applicable to static analysis)",
 		techCDAI, cdaiAssume)
 	p("C02",
-		[]string{"T-ROUND", "T-SETEXP", "T-ARITH@Add(|Sub(|Mul(|Quo(|FMA(", "T-UNARY@Set(|SetPrec(|SetInf(|SetMode(|SetInt|SetUint64(|NewDecimal(|SetMantExp(", "FX-ACC", "SIGN", "MUSTFLOW@remainder", "WORD@divBasic|divLarge|divRecursiveStep"},
+		[]string{"T-ROUND", "T-SETEXP", "T-ARITH@Add(|Sub(|Mul(|Quo(|FMA(", "T-UNARY@Set(|SetPrec(|SetInf(|SetMode(|SetInt|SetUint64(|NewDecimal(|SetMantExp(", "FX-ACC", "SIGN", "MUSTFLOW@remainder", "WORD@divBasic|divLarge|divRecursiveStep", "LOWCUT"},
 		[]string{
 			"T-ROUND/T-SETEXP accuracy columns: acc = sign of (stored - exact) as a function of increment and sign; Exact iff rounding digit = 0 and no sticky; underflow/overflow accuracies.",
 			"T-ARITH/T-UNARY: every special-value result is reported Exact, the exact-cancellation branch reports Exact, no rounding happens under a sign that is flipped afterwards.",
 			"FX-ACC: every listed operation writes the accuracy on every success exit (also z.Set(z)), so no stale accuracy of an earlier operation survives.",
 			"SIGN(b): an accuracy computed for +y is never reused for -y (nothing builds on Neg/Abs); MUSTFLOW: a non-zero division remainder sets the sticky bit; WORD: the remainder words are valid decimal words (so `len(r) > 0` means inexact).",
+			"LOWCUT: digits dropped from an operand before the operation are accounted for in the sticky bit (otherwise an inexact result reports Exact).",
 		},
 		"that the sticky bit summarises exactly the discarded digits (numeric)",
 		techCDAI, cdaiAssume, fxAssume)
@@ -100,16 +102,17 @@ func init() {
 		"that prec+2 working digits and the final multiplication give the correctly rounded root (numeric, not applicable)",
 		techCDAI, cdaiAssume, fxAssume)
 	p("C06",
-		[]string{"WORD", "CARRY", "ALIASGUARD", "OVERLAP", "POOL", "INIT", "NORMARG", "FX-GLOBAL@Threshold|decLeafSize|decPool", "CONST@threshold", "FX-IMMUT@dec.|decBasic|decKaratsuba|decAddAt"},
+		[]string{"WORD", "CARRY", "ALIASGUARD", "OVERLAP", "POOL", "INIT", "NORMARG", "FX-GLOBAL@Threshold|decLeafSize|decPool", "CONST@threshold", "FX-IMMUT@dec.|decBasic|decKaratsuba|decAddAt", "DECNORM"},
 		[]string{
 			"WORD: every value stored into a mantissa word and every scalar word handed to a decimal kernel in mul/sqr/div and their helpers is a kernel result, a reduced value, a loaded word or a constant below the base (exceptions tabled with a count); CARRY: every carry/borrow/remainder is consumed except at tabled sites (one more discard fails).",
 			"ALIASGUARD/OVERLAP: result buffers are not reused while they overlap an operand; in-place kernel uses have matching offsets; POOL: scratch buffers are owned exclusively between getDec and putDec; INIT: accumulating routines start from cleared or fully produced buffers (any-range); NORMARG: dec.cmp only sees normalised operands.",
 			"FX-GLOBAL/CONST: the tuning thresholds are written by nobody outside test code and are initialised to constants >= 2; FX-IMMUT: the dec-layer routines never write a source slice.",
+			"DECNORM: every dec-layer function returns a normalised value (norm(), another such function's result, v[:0] or its own parameter) — callers compare lengths and index the top word.",
 		},
 		"that Karatsuba, schoolbook and recursive code compute the same product/quotient (arithmetic), buffer-length contracts (len(z) >= 6n), the partial clear in mul, the numeric `impossible` guards: NOT APPLICABLE to static analysis",
 		"provenance dataflow on stored words, use-def of kernel results, dominance of alias guards and initialisers, slice-root analysis", fxAssume)
 	p("C08",
-		[]string{"WORD", "NORM", "EXP", "PREC0", "ENUM", "FX-OWN", "GOB@G2", "SIGN@usub"},
+		[]string{"WORD", "NORM", "EXP", "PREC0", "ENUM", "FX-OWN", "GOB@G2", "SIGN@usub", "DECNORM", "LOWCUT"},
 		[]string{
 			"An inductive invariant over all operation sequences, one clause per rule, the induction step being per exported method: words < base (WORD, and GOB G2 for decoded words); a computed mantissa is normalised and rounded before it can be observed as finite (NORM); the exponent stays within [MinExp, MaxExp] (EXP); finite implies precision > 0 (PREC0 and GOB G2 digits<=prec); form, mode and acc hold declared enumerators only (ENUM); each Decimal owns its mantissa array (FX-OWN).",
 		},
@@ -146,7 +149,7 @@ func init() {
 		"stale words in a reused mantissa buffer (dec.make does not clear) beyond the INIT rule",
 		techFX+"; plus E4 tables under aliasing", cdaiAssume, fxAssume)
 	p("C11",
-		[]string{"FMTSHAPE@MarshalText|shortest|infinity|exponent-marker", "FX-IMMUT@(*Decimal).Append|(*Decimal).Text|(*Decimal).String|(*Decimal).Format|(*Decimal).fmt|(*Decimal).toa|(*Decimal).MarshalText|(*Decimal).bufSizeForFmt", "CONST@pow10tab|decMaxPow"},
+		[]string{"FMTSHAPE@MarshalText|shortest|infinity|exponent-marker", "FX-IMMUT@(*Decimal).Append|(*Decimal).Text|(*Decimal).String|(*Decimal).Format|(*Decimal).fmt|(*Decimal).toa|(*Decimal).MarshalText|(*Decimal).bufSizeForFmt", "CONST@pow10tab|decMaxPow", "EXP"},
 		[]string{
 			"FMTSHAPE: MarshalText (hence JSON) calls Append with a constant negative precision in a format Parse reads; on the negative-precision path Append makes no rounding copy; the infinity spelling Append writes is one Parse compares against and the exponent markers of the b and p formats are among those scanExponent accepts.",
 			"FX-IMMUT: no formatter writes its operand; CONST: pow10tab and decMaxPow (digit grouping used by both the writer and the reader) equal their mathematical definition.",
@@ -154,17 +157,18 @@ func init() {
 		"round-trip equality of digits and exponent: NOT APPLICABLE to static analysis (digit placement in fmtE/fmtF/itoa and digit accumulation in scan are loop arithmetic over run-time values); this check is a thin necessary-condition claim only",
 		"shape rules over the SSA form of the writers and the reader (constants written vs constants compared), write-set analysis, table evaluation", fxAssume)
 	p("C12",
-		[]string{"ERRNIL", "ERRDROP", "SCANSHAPE", "CONST@decMaxPow", "FX-RBW@(*Decimal).scan|(*Decimal).Parse|SetString|UnmarshalText|(*Decimal).Scan", "PREC0@scan|Parse|SetString|UnmarshalText|(*Decimal).Scan", "FX-STICKY@(*Decimal).scan|(*Decimal).Parse", "FX-ACC@scan"},
+		[]string{"ERRNIL", "ERRDROP", "SCANSHAPE", "CONST@decMaxPow", "FX-RBW@(*Decimal).scan|(*Decimal).Parse|SetString|UnmarshalText|(*Decimal).Scan", "PREC0@scan|Parse|SetString|UnmarshalText|(*Decimal).Scan", "FX-STICKY@(*Decimal).scan|(*Decimal).Parse", "FX-ACC@scan", "DECNORM@dec.scan|mulAddWW|setWord"},
 		[]string{
 			"ERRNIL: on every return (per φ edge) of scan, Parse, SetString, ParseDecimal and the context wrappers a possibly non-nil error comes with the nil *Decimal and a nil error with a non-nil one (SetString: flag true exactly with a non-nil result); Parse reports success only on paths where the reader returned io.EOF after the number (no trailing characters).",
 			"ERRDROP: every error returned by a callee inside the scanners is consumed (the three explicit `_ = r.UnreadByte()` excepted).",
 			"SCANSHAPE: the '_' gate handed to scanExponent is the one dec.scan applies (base == 0); fraction digits of base 2/8/16 mantissas contribute 1/3/4 binary exponent units, base-10 digits one decimal unit.",
 			"CONST: decMaxPow tables; FX-RBW/PREC0/FX-STICKY/FX-ACC: scan reads nothing of the old receiver, rounds only with an examined precision (34 for 0), keeps the mode, and defines the accuracy.",
+			"DECNORM: dec.scan returns a normalised mantissa on every path (also when whole words of leading zeros were shifted in).",
 		},
 		"rounding of long literals, accuracy of the binary-exponent path (pow2), and agreement of the accepted language with math/big (would need the upstream source as a frozen reference); the separator automata of dec.scan/scanExponent",
 		"nil-ness facts from dominating branch edges on the SSA form, per return and φ edge; use-def checks on error results; shape rules on the radix switch", fxAssume)
 	p("C13",
-		[]string{"FMTSHAPE@Append|Format", "FX-IMMUT@(*Decimal).Append|(*Decimal).Text|(*Decimal).String|(*Decimal).Format|(*Decimal).fmt|(*Decimal).toa"},
+		[]string{"FMTSHAPE@Append|Format", "FX-IMMUT@(*Decimal).Append|(*Decimal).Text|(*Decimal).String|(*Decimal).Format|(*Decimal).fmt|(*Decimal).toa", "LOWCUT"},
 		[]string{
 			"FMTSHAPE: with an explicit precision Append rounds a fresh copy (never x) that was given x's rounding mode; the precision it requests must be provably non-zero (0 means `keep the operand's precision`, i.e. no rounding) — this obligation FAILS on the pinned tree and is the known finding F12; Format has a case for every documented verb (e E f F g G b p v s) and consults the flags + space 0 - and width/precision.",
 			"FX-IMMUT: formatting never writes its operand.",
@@ -227,7 +231,7 @@ func init() {
 		"exclusive ownership of pooled scratch buffers between getDec and putDec (POOL rule) and the store targets of the assembly kernels (E7) where not yet listed; equality of concurrent and sequential results beyond 'no shared write'",
 		techFX, fxAssume)
 	p("C20",
-		[]string{"T-UNARY@MantExp(|SetMantExp(", "PREC0@SetBitsExp|SetMantExp|MantExp", "FX-RBW@SetBitsExp|SetMantExp", "FX-RAW@MantExp|SetMantExp", "FX-OWN@BitsExp|SetBitsExp|MantExp|SetMantExp|Copy", "FX-STICKY@SetBitsExp", "EXP@SetBitsExp|SetMantExp", "NORM@SetBitsExp", "MUSTFLOW@SetBitsExp", "SIGN@SetBitsExp"},
+		[]string{"T-UNARY@MantExp(|SetMantExp(", "PREC0@SetBitsExp|SetMantExp|MantExp", "FX-RBW@SetBitsExp|SetMantExp", "FX-RAW@MantExp|SetMantExp", "FX-OWN@BitsExp|SetBitsExp|MantExp|SetMantExp|Copy", "FX-STICKY@SetBitsExp", "EXP@SetBitsExp|SetMantExp", "NORM@SetBitsExp", "MUSTFLOW@SetBitsExp", "SIGN@SetBitsExp", "LOWCUT"},
 		[]string{
 			"T-UNARY: MantExp returns 0 and copies form/sign for ±0/±Inf, returns x's exponent and leaves mant with exponent 0 otherwise (also for mant nil and mant = x); SetMantExp copies zeros/infinities without scaling and enters setExpAndRound with exponent(mant)+exp and the sign already set, also for z = mant.",
 			"PREC0: SetBitsExp/SetMantExp never round with precision 0; FX-RBW: nothing of the old receiver is read; FX-RAW: MantExp(x == mant) and SetMantExp(z == mant) have no read-after-write hazard; FX-OWN: the only functions that share a mantissa array with the caller are SetBitsExp and BitsExp (documented).",
